@@ -67,6 +67,12 @@ def nav_programs():
     p3 = [g("G"), ch_a, {"k": "menu", "title": "more", "dep": Y, "visif": S("G"), "children": [ch_b]}, mk_config("OBS", "int", defaults=[{"v": C("1"), "c": S("M1")}, {"v": C("3"), "c": S("M3")}, {"v": C("0"), "c": Y}])]
     o3 = [["s", "G"], ["ch", "CH"], ["s", "M1"], ["s", "M2"], ["s", "M3"], ["s", "OBS"]]
     out.append({"prog": p3, "ord": o3, "label": "choice-twice"})
+    # P4: the two definitions of a named choice share an option (declared in both, and twice inside one of them)
+    ch_a = {"k": "choice", "id": "CH", "title": "ch", "prompt": [Y], "dep": Y, "defaults": [], "children": [mk_config("M1", "bool", prompt=Y), mk_config("M2", "bool", prompt=Y)]}
+    ch_b = {"k": "choice", "id": "CH", "title": "ch again", "prompt": [Y], "dep": Y, "defaults": [], "children": [mk_config("M2", "bool", prompt=Y), mk_config("M3", "bool", prompt=S("G")), mk_config("M3", "bool", prompt=Y)]}
+    p4 = [g("G"), ch_a, {"k": "menu", "title": "board", "dep": Y, "visif": Y, "children": [ch_b]}, mk_config("OBS", "int", defaults=[{"v": C("2"), "c": S("M2")}, {"v": C("3"), "c": S("M3")}, {"v": C("0"), "c": Y}])]
+    o4 = [["s", "G"], ["ch", "CH"], ["s", "M1"], ["s", "M2"], ["s", "M3"], ["s", "OBS"]]
+    out.append({"prog": p4, "ord": o4, "label": "choice-twice-shared-option"})
     return out
 
 
